@@ -42,7 +42,8 @@ ASSUMPTIONS = ["the -o path differs from the temp file $TMPDIR/agc_extract_<pid>
 PROFILES = ["dev"]          # profile of the *harness* binary only; the ragc binary under test is the release build
 
 CACHE = os.path.join(vlib.CACHE, "c17") if "vlib" in globals() else "/verif/.cache/c17"
-STATE = {"cli": None, "cli_dev": None, "build_err": None, "invocations": 0, "archives": [], "singles": {}}
+STATE = {"cli": None, "cli_dev": None, "build_err": None, "invocations": 0, "archives": [], "singles": {},
+         "anomalies": []}
 IUPAC = "ACGTNRYSWKMBDHVU"
 
 
@@ -144,12 +145,18 @@ def observe(arc_bytes):
                     os.unlink(os.path.join(d, f))
             if rcg == 0:
                 recs = parse_fasta(outg)
-                if ctg and [r[0] for r in recs] != ctg:
-                    raise RuntimeError("listctg and getset disagree on the contig names of %r" % n)
+                if rcl != 0 or [r[0] for r in recs] != ctg:
+                    # the binary contradicts itself on one archive: reported through extra_checks as a failing input
+                    STATE["anomalies"].append((f"listctg A:{arc_bytes.hex()} - stdout {hx(n)}",
+                                               f"rc={rcl} contigs={[c.decode(errors='replace') for c in ctg]}",
+                                               "listctg and getset <same sample> disagree on the contig names: getset "
+                                               f"exits 0 with {[r[0].decode(errors='replace') for r in recs]}"))
                 singles[n] = outg
                 parts.append(hx(n) + "=" + ",".join(hx(c) + "/" + hx(s) for c, s in recs))
+            elif rcl == 0:
+                parts.append(hx(n) + "=" + ",".join(hx(c) + "/!" for c in ctg))     # names load, the data does not
             else:
-                parts.append(hx(n) + "=" + ",".join(hx(c) + "/!" for c in (ctg or [b"?"])))
+                parts.append(hx(n) + "=!")      # listed, but its contig metadata does not load: listctg fails too
         return (";".join(parts) if parts else "."), singles
 
 
@@ -173,7 +180,9 @@ def parse_content(c):
     for s in c.split(";"):
         nm, cs = s.split("=", 1)
         contigs = []
-        if cs:
+        if cs == "!":
+            contigs = None
+        elif cs:
             for x in cs.split(","):
                 cn, d = x.split("/", 1)
                 contigs.append((unhx(cn), None if d == "!" else unhx(d)))
@@ -461,9 +470,9 @@ def oracle(case, impl):
             want = b"".join(n + b"\n" for n, _ in content)
         elif t[0] == "listctg":
             req = [unhx(x) for x in t[4:]]
-            unknown = [n for n in req if n not in byname]
+            unknown = [n for n in req if byname.get(n) is None]
             if unknown:
-                why = "unknown sample %r" % unknown[0]
+                why = "unknown sample (or unloadable contig metadata) %r" % unknown[0]
             else:
                 want = b"".join(n + b"\t" + c + b"\n" for n in req for c, _ in byname[n])
         else:
@@ -476,7 +485,7 @@ def oracle(case, impl):
             elif not req:
                 why = "neither names nor prefix"
             if why is None:
-                badn = [n for n in req if n not in byname or any(s is None for _, s in byname[n])]
+                badn = [n for n in req if byname.get(n) is None or any(s is None for _, s in byname[n])]
                 if badn:
                     why = "unknown or unreadable sample %r" % badn[0]
                 elif dst == "baddir":
@@ -538,7 +547,7 @@ def extra_checks(ctx):
     ensure_cli()
     if STATE["build_err"]:
         return [("harness", "cargo build -p ragc-cli --release of /repo's working tree failed", STATE["build_err"], None)]
-    return []
+    return [("correspondence", "listctg vs getset", why, (c, i, why)) for c, i, why in STATE["anomalies"]]
 
 
 def extra_coverage(ctx):
